@@ -395,11 +395,23 @@ theorem fromString_step {N k : Nat} {ws : Words k} {g : Spec.Bits} (h : Rep N k 
     refine ⟨ws2, by simp [h0, h1', hs2], hr2.congr (fun j _ => ?_)⟩
     by_cases e : j = i <;> simp [Spec.set1, e, h0]
 
+theorem svAt_ok {mem : List Nat} {size i : Nat} (h1 : i < size) (h2 : i < mem.length) :
+    svAt mem size i = .ok mem[i] := by
+  simp [svAt, h1, rd_ok h2]
+
+/-- a view never shows anything behind its `size()`: reading through `(mem, size)` is reading the exact-size
+    buffer `mem.take size` -/
+theorem svAt_take (mem : List Nat) (size i : Nat) : svAt (mem.take size) size i = svAt mem size i := by
+  unfold svAt
+  by_cases h : i < size
+  · simp [h, rd]
+  · simp [h]
+
 theorem fromStringLoop_rep {N k : Nat} (str : List Nat) (pos len zeroCh oneCh : Nat) (hlenN : len ≤ N)
     (hL : pos + len ≤ str.length)
     (hvalid : ∀ t (ht : pos + t < str.length), t < len → str[pos + t] = zeroCh ∨ str[pos + t] = oneCh) :
     ∀ (fuel i : Nat) (ws : Words k) (g : Spec.Bits), Rep N k ws g → i + fuel = len →
-    ∃ ws', fromStringLoop N str pos len zeroCh oneCh fuel i ws = .ok ws' ∧
+    ∃ ws', fromStringLoop N str str.length pos len zeroCh oneCh fuel i ws = .ok ws' ∧
       Rep N k ws' (fun j => if i ≤ j ∧ j < len then
         (match str[pos + (len - 1 - j)]? with | some c => c != zeroCh | Option.none => false) else g j)
   | 0, i, ws, g, h, _ => ⟨ws, rfl, h.congr (fun j _ => by
@@ -414,7 +426,7 @@ theorem fromStringLoop_rep {N k : Nat} (str : List Nat) (pos len zeroCh oneCh : 
     obtain ⟨ws', hs', hr'⟩ := fromStringLoop_rep str pos len zeroCh oneCh hlenN hL hvalid fuel (i + 1) ws2 _ hr2
       (by omega)
     refine ⟨ws', ?_, hr'.congr (fun j _ => ?_)⟩
-    · simp only [fromStringLoop, hidx, rd_ok hlt, ok_bind, hs2, hs']
+    · simp only [fromStringLoop, hidx, svAt_ok hlt hlt, ok_bind, hs2, hs']
     · by_cases hji : j = i
       · subst hji
         have : ¬ (j + 1 ≤ j ∧ j < len) := by omega
@@ -457,7 +469,7 @@ theorem fromString_rep (N k : Nat) (str : List Nat) (pos n zeroCh oneCh : Nat) (
     simpa using this
   obtain ⟨ws', hs', hr'⟩ := fromStringLoop_rep (N := N) (k := k) str pos len zeroCh oneCh (by omega) (by omega) hv
     len 0 ws0 _ hr0 (by omega)
-  refine ⟨ws', by simp only [fromString, hnp, if_false, hs0, ok_bind]; exact hs', hr'.congr (fun j _ => ?_)⟩
+  refine ⟨ws', by simp only [fromString, fromStringV, hnp, if_false, hs0, ok_bind]; exact hs', hr'.congr (fun j _ => ?_)⟩
   simp only [Spec.ofString, Nat.zero_le, true_and]
   have hul := usedChars_length N str pos n
   by_cases hj : j < len
@@ -474,26 +486,163 @@ theorem fromString_rep (N k : Nat) (str : List Nat) (pos n zeroCh oneCh : Nat) (
       rw [List.length_reverse, hul]; omega
     simp [hj, this, Spec.ofNat]
 
-/-- `bitset(char const* str, n, zero, one)`; preconditions: `[str, str + n)` readable (or `n == npos`)
-    and every used character is `zero` or `one` -/
-theorem fromCstr_rep (N k : Nat) (buf : List Nat) (n zeroCh oneCh : Nat) (hn : n = NPOS ∨ n ≤ buf.length)
-    (hvalid : (usedChars N buf 0 n).all (fun c => c == zeroCh || c == oneCh) = true) :
-    ∃ ws', fromCstr N k buf n zeroCh oneCh = .ok ws' ∧ Rep N k ws' (Spec.ofString N buf 0 n zeroCh) := by
+/-! ### what the constructors read -/
+
+theorem fromStringLoop_take {N k : Nat} (mem : List Nat) (size pos len zeroCh oneCh : Nat) :
+    ∀ (fuel i : Nat) (ws : Words k),
+      fromStringLoop N (mem.take size) size pos len zeroCh oneCh fuel i ws =
+        fromStringLoop N mem size pos len zeroCh oneCh fuel i ws
+  | 0, _, _ => rfl
+  | fuel + 1, i, ws => by
+    simp only [fromStringLoop, svAt_take]
+    congr 1; funext ch; congr 1; funext ws2
+    exact fromStringLoop_take mem size pos len zeroCh oneCh fuel (i + 1) ws2
+
+/-- the view constructor depends on nothing behind `size()` -/
+theorem fromStringV_take (N k : Nat) (mem : List Nat) (size pos n zeroCh oneCh : Nat) :
+    fromStringV N k (mem.take size) size pos n zeroCh oneCh = fromStringV N k mem size pos n zeroCh oneCh := by
+  unfold fromStringV
+  simp only [fromStringLoop_take]
+
+/-- a view `(mem, size)` inside its allocation behaves like the exact-size buffer of its characters -/
+theorem fromStringV_eq (N k : Nat) (mem : List Nat) (size pos n zeroCh oneCh : Nat) (hsz : size ≤ mem.length) :
+    fromStringV N k mem size pos n zeroCh oneCh = fromString N k (mem.take size) pos n zeroCh oneCh := by
+  rw [← fromStringV_take]
+  unfold fromString
+  rw [List.length_take, Nat.min_eq_left hsz]
+
+/-- **Footprint of the view constructor**: the result on an exact-size buffer `str` equals the result on
+    any extension of it (the view still has `size() = |str|`); nothing at or behind `str.size()` is read,
+    whatever `pos`, `n` and the characters are. -/
+theorem fromString_footprint (N k : Nat) (str ext : List Nat) (pos n zeroCh oneCh : Nat) :
+    fromStringV N k (str ++ ext) str.length pos n zeroCh oneCh = fromString N k str pos n zeroCh oneCh := by
+  rw [fromStringV_eq N k (str ++ ext) str.length pos n zeroCh oneCh (by simp), List.take_left']
+  rfl
+
+/-- a buffer that contains a terminator: the characters before it (none of them null), the terminator,
+    the rest -/
+theorem exists_terminator : ∀ (mem : List Nat), 0 ∈ mem →
+    ∃ s rest, mem = s ++ 0 :: rest ∧ (∀ c, c ∈ s → c ≠ 0) ∧ mem.takeWhile (fun c => c != 0) = s
+  | [], h => by simp at h
+  | c :: t, h => by
+    by_cases hc : c = 0
+    · subst hc
+      exact ⟨[], t, by simp, by simp, by simp⟩
+    · have ht : 0 ∈ t := by
+        cases h with
+        | head => exact absurd rfl hc
+        | tail _ h' => exact h'
+      obtain ⟨s, rest, hr, hs, htw⟩ := exists_terminator t ht
+      refine ⟨c :: s, rest, by rw [hr]; rfl, ?_, ?_⟩
+      · intro x hx
+        cases hx with
+        | head => exact hc
+        | tail _ h' => exact hs x h'
+      · have : (c != 0) = true := by simpa using hc
+        simp only [List.takeWhile_cons, this, if_true, htw]
+
+theorem strlenLoop_eq (s rest : List Nat) (hs : ∀ c, c ∈ s → c ≠ 0) :
+    ∀ (d fuel i : Nat), i + d = s.length → d < fuel → strlenLoop (s ++ 0 :: rest) fuel i = .ok s.length
+  | _, 0, _, _, hf => by omega
+  | 0, fuel + 1, i, hi, _ => by
+    have e : i = s.length := by omega
+    subst e
+    have h1 : rd (s ++ 0 :: rest) s.length = .ok 0 := by simp [rd]
+    simp [strlenLoop, h1]
+  | d + 1, fuel + 1, i, hi, hf => by
+    have hil : i < s.length := by omega
+    have h1 : rd (s ++ 0 :: rest) i = .ok s[i] := by
+      simp [rd, List.getElem?_append_left hil, List.getElem?_eq_getElem hil]
+    have h2 : (s[i] != 0) = true := by simpa using hs s[i] (List.getElem_mem hil)
+    simp only [strlenLoop, h1, ok_bind, h2, if_true]
+    exact strlenLoop_eq s rest hs d fuel (i + 1) (by omega) (by omega)
+
+/-- `strlen` on a terminated buffer: the number of characters before the first `CharT(0)`; it reads those
+    and the terminator (never `.error`) -/
+theorem strlen_eq (mem : List Nat) (h0 : 0 ∈ mem) :
+    strlen mem = .ok (mem.takeWhile (fun c => c != 0)).length := by
+  obtain ⟨s, rest, hr, hs, htw⟩ := exists_terminator mem h0
+  rw [htw]
+  unfold strlen
+  have key := strlenLoop_eq s rest hs s.length (mem.length + 1) 0 (by omega) (by rw [hr]; simp; omega)
+  rw [← hr] at key
+  exact key
+
+/-- the pointer overload's precondition [bitset.cons]: with `n == npos` the buffer holds a terminator;
+    otherwise `[str, str + n)` is readable — nothing is required of the units at or behind `str + n` -/
+def cstrReadable (mem : List Nat) (n : Nat) : Bool :=
+  if n = NPOS then mem.contains 0 else decide (n ≤ mem.length)
+
+theorem cstrReadable_npos {mem : List Nat} (h : cstrReadable mem NPOS = true) : 0 ∈ mem := by
+  simpa [cstrReadable] using h
+
+theorem cstrReadable_n {mem : List Nat} {n : Nat} (hn : n ≠ NPOS) (h : cstrReadable mem n = true) :
+    n ≤ mem.length := by
+  simpa [cstrReadable, hn] using h
+
+/-- the pointer overload is the view constructor on the exact-size buffer of the characters that
+    `std::bitset` uses ([bitset.cons]: `basic_string(str)` / `basic_string(str, n)`) -/
+theorem fromCstr_eq (N k : Nat) (mem : List Nat) (n zeroCh oneCh : Nat) (hn : cstrReadable mem n = true) :
+    fromCstr N k mem n zeroCh oneCh = fromString N k (Spec.cstrChars mem n) 0 n zeroCh oneCh := by
   unfold fromCstr
   by_cases h1 : n = NPOS
-  · simp only [h1, beq_self_eq_true, if_true]
-    rw [h1] at hvalid
-    exact fromString_rep N k buf 0 NPOS zeroCh oneCh (Nat.zero_le _) hvalid
-  · have hle : n ≤ buf.length := by cases hn with | inl h => exact absurd h h1 | inr h => exact h
+  · subst h1
+    have h0 := cstrReadable_npos hn
+    obtain ⟨s, rest, hr, _, htw⟩ := exists_terminator mem h0
+    have hc : Spec.cstrChars mem NPOS = s := by
+      simp [Spec.cstrChars, NPOS, Spec.npos, htw]
+    have ht : mem.take s.length = s := by rw [hr]; exact List.take_left' rfl
+    have hle : s.length ≤ mem.length := by rw [hr]; simp
+    simp only [beq_self_eq_true, if_true, strlen_eq mem h0, ok_bind, htw]
+    rw [fromStringV_eq N k mem _ 0 NPOS zeroCh oneCh hle, ht, hc]
+  · have hle := cstrReadable_n h1 hn
     have hb : (n == NPOS) = false := by simpa using h1
-    simp only [hb, Bool.false_eq_true, if_false, hle, if_true]
-    have e : usedChars N (buf.take n) 0 n = usedChars N buf 0 n := by
-      simp [usedChars, List.take_take]
-    obtain ⟨ws', hs, hr⟩ := fromString_rep N k (buf.take n) 0 n zeroCh oneCh (Nat.zero_le _) (by rw [e]; exact hvalid)
-    refine ⟨ws', hs, hr.congr (fun j _ => ?_)⟩
-    have e' : (((buf.take n).drop 0).take n).take N = ((buf.drop 0).take n).take N := by
-      simp [List.take_take]
-    simp only [Spec.ofString, e']
+    have hc : Spec.cstrChars mem n = mem.take n := by
+      have : ¬ n = Spec.npos := h1
+      simp [Spec.cstrChars, this]
+    simp only [hb, Bool.false_eq_true, if_false]
+    rw [fromStringV_eq N k mem n 0 n zeroCh oneCh hle, hc]
+
+/-- `bitset(char const* str, n, zero, one)`; preconditions: `cstrReadable` (a terminator when `n == npos`,
+    `[str, str + n)` readable otherwise) and every used character is `zero` or `one`.  `mem` is everything
+    that is readable from `str`; with an explicit `n` the first `n` units are the digits, null characters
+    included. -/
+theorem fromCstr_rep (N k : Nat) (mem : List Nat) (n zeroCh oneCh : Nat) (hn : cstrReadable mem n = true)
+    (hvalid : (usedChars N (Spec.cstrChars mem n) 0 n).all (fun c => c == zeroCh || c == oneCh) = true) :
+    ∃ ws', fromCstr N k mem n zeroCh oneCh = .ok ws' ∧ Rep N k ws' (Spec.ofCstr N mem n zeroCh) := by
+  rw [fromCstr_eq N k mem n zeroCh oneCh hn]
+  exact fromString_rep N k (Spec.cstrChars mem n) 0 n zeroCh oneCh (Nat.zero_le _) hvalid
+
+/-- **Footprint of the pointer overload with an explicit `n`**: the result on the exact-size buffer of `n`
+    units (no terminator behind it) equals the result on any extension of it — exactly the first `n` units are
+    read and no terminator is looked for, whatever the characters are (no validity hypothesis: a `CharT(0)`
+    among them changes nothing). -/
+theorem fromCstr_footprint (N k : Nat) (buf ext : List Nat) (zeroCh oneCh : Nat) (hn : buf.length ≠ NPOS) :
+    fromCstr N k (buf ++ ext) buf.length zeroCh oneCh = fromCstr N k buf buf.length zeroCh oneCh := by
+  have hb : (buf.length == NPOS) = false := by simpa using hn
+  unfold fromCstr
+  simp only [hb, Bool.false_eq_true, if_false]
+  rw [fromString_footprint]
+  rfl
+
+/-- the same for a longer readable buffer and a smaller `n`: only `mem.take n` matters -/
+theorem fromCstr_take (N k : Nat) (mem : List Nat) (n zeroCh oneCh : Nat) (hn : n ≠ NPOS) (hle : n ≤ mem.length) :
+    fromCstr N k mem n zeroCh oneCh = fromCstr N k (mem.take n) n zeroCh oneCh := by
+  have e : mem = mem.take n ++ mem.drop n := (List.take_append_drop n mem).symm
+  have hl : (mem.take n).length = n := by simp [hle]
+  have := fromCstr_footprint N k (mem.take n) (mem.drop n) zeroCh oneCh (by rw [hl]; exact hn)
+  rw [hl, ← e] at this
+  exact this
+
+/-- **Footprint of the `npos` form**: the characters before the terminator and the terminator itself are
+    read, nothing behind it: the result on `s ++ [0]` equals the result on any extension. -/
+theorem fromCstr_npos_footprint (N k : Nat) (s ext : List Nat) (zeroCh oneCh : Nat) (hs : ∀ c, c ∈ s → c ≠ 0) :
+    fromCstr N k (s ++ 0 :: ext) NPOS zeroCh oneCh = fromCstr N k (s ++ [0]) NPOS zeroCh oneCh := by
+  have l1 := strlenLoop_eq s ext hs s.length ((s ++ 0 :: ext).length + 1) 0 (by omega) (by simp; omega)
+  have l2 := strlenLoop_eq s [] hs s.length ((s ++ [0]).length + 1) 0 (by omega) (by simp; omega)
+  unfold fromCstr strlen
+  simp only [beq_self_eq_true, if_true, l1, l2, ok_bind]
+  rw [fromString_footprint, fromString_footprint]
 
 /-! ## calls with defaulted trailing arguments -/
 
@@ -513,10 +662,11 @@ theorem fromStringD_rep (N k : Nat) (str : List Nat) (pos n zeroCh oneCh : Optio
 
 /-- `bitset(cstr [, n [, zero [, one]]])` -/
 theorem fromCstrD_rep (N k : Nat) (buf : List Nat) (n zeroCh oneCh : Option Nat)
-    (hn : arg n NPOS = NPOS ∨ arg n NPOS ≤ buf.length)
-    (hvalid : (usedChars N buf 0 (arg n NPOS)).all (fun c => c == arg zeroCh CH0 || c == arg oneCh CH1) = true) :
+    (hn : cstrReadable buf (arg n NPOS) = true)
+    (hvalid : (usedChars N (Spec.cstrChars buf (arg n NPOS)) 0 (arg n NPOS)).all
+      (fun c => c == arg zeroCh CH0 || c == arg oneCh CH1) = true) :
     ∃ ws', fromCstrD N k buf n zeroCh oneCh = .ok ws' ∧
-      Rep N k ws' (Spec.ofString N buf 0 (arg n Spec.npos) (arg zeroCh Spec.ch0)) :=
+      Rep N k ws' (Spec.ofCstr N buf (arg n Spec.npos) (arg zeroCh Spec.ch0)) :=
   fromCstr_rep N k buf (arg n NPOS) (arg zeroCh CH0) (arg oneCh CH1) hn hvalid
 
 /-! ## histories -/
@@ -534,14 +684,14 @@ def Op.valid (N : Nat) : Op → Bool
   | .fromStr _ str pos n zeroCh oneCh =>
     decide (pos ≤ str.length) && (usedChars N str pos n).all (fun c => c == zeroCh || c == oneCh)
   | .fromCstr _ buf n zeroCh oneCh =>
-    (n == NPOS || decide (n ≤ buf.length)) && (usedChars N buf 0 n).all (fun c => c == zeroCh || c == oneCh)
+    cstrReadable buf n && (usedChars N (Spec.cstrChars buf n) 0 n).all (fun c => c == zeroCh || c == oneCh)
   | .setD _ pos => decide (pos < N)
   | .fromStrD _ str pos n zeroCh oneCh =>
     decide (arg pos 0 ≤ str.length) &&
       (usedChars N str (arg pos 0) (arg n NPOS)).all (fun c => c == arg zeroCh CH0 || c == arg oneCh CH1)
   | .fromCstrD _ buf n zeroCh oneCh =>
-    (arg n NPOS == NPOS || decide (arg n NPOS ≤ buf.length)) &&
-      (usedChars N buf 0 (arg n NPOS)).all (fun c => c == arg zeroCh CH0 || c == arg oneCh CH1)
+    cstrReadable buf (arg n NPOS) &&
+      (usedChars N (Spec.cstrChars buf (arg n NPOS)) 0 (arg n NPOS)).all (fun c => c == arg zeroCh CH0 || c == arg oneCh CH1)
   | _ => true
 
 /-- every live object represents its abstract counterpart -/
@@ -619,7 +769,7 @@ theorem step_rep {N k : Nat} {st : Store k} {sp : Spec.Store} (h : StoreRep N k 
     obtain ⟨r, hs, hr⟩ := fromString_rep N k str pos n zeroCh oneCh hv.1 hv.2
     exact ⟨_, by simp [step, hs], put_rep h o hr⟩
   | fromCstr o buf n zeroCh oneCh =>
-    simp only [Op.valid, Bool.and_eq_true, Bool.or_eq_true, beq_iff_eq, decide_eq_true_eq] at hv
+    simp only [Op.valid, Bool.and_eq_true] at hv
     obtain ⟨r, hs, hr⟩ := fromCstr_rep N k buf n zeroCh oneCh hv.1 hv.2
     exact ⟨_, by simp [step, hs], put_rep h o hr⟩
   | setD o pos =>
@@ -630,7 +780,7 @@ theorem step_rep {N k : Nat} {st : Store k} {sp : Spec.Store} (h : StoreRep N k 
     obtain ⟨r, hs, hr⟩ := fromStringD_rep N k str pos n zeroCh oneCh hv.1 hv.2
     exact ⟨_, by simp [step, hs], put_rep h o hr⟩
   | fromCstrD o buf n zeroCh oneCh =>
-    simp only [Op.valid, Bool.and_eq_true, Bool.or_eq_true, beq_iff_eq, decide_eq_true_eq] at hv
+    simp only [Op.valid, Bool.and_eq_true] at hv
     obtain ⟨r, hs, hr⟩ := fromCstrD_rep N k buf n zeroCh oneCh hv.1 hv.2
     exact ⟨_, by simp [step, hs], put_rep h o hr⟩
 
